@@ -77,19 +77,30 @@ pub mod tokio { pub mod task { pub fn yield_now() {} } }
 // the two relay tasks as the function that spawned them sees them
 pub struct AbortHandle { pub ghost which: int }
 pub struct JoinHandle { pub ghost which: int }
-pub struct JoinLog { pub ghost awaited: Set<int>, pub ghost aborted: Set<int> }
+// released = sessions handed back to the pool; awaited_at_release = which tasks had been awaited to completion when that happened
+pub struct JoinLog { pub ghost awaited: Set<int>, pub ghost aborted: Set<int>, pub ghost released: Set<int>, pub ghost awaited_at_release: Set<int> }
+// the client as the end of a front-end request sees it (Client::release_session is under contract in group `pool`)
+pub struct ClientW { pub _p: () }
+impl ClientW {
+    #[verifier::external_body]
+    pub fn release_session(&self, session: Arc<SessionW>, jl: &mut Ghost<JoinLog>)
+        ensures final(jl)@.released == old(jl)@.released.insert(session.sid as int), final(jl)@.awaited_at_release == old(jl)@.awaited,
+            final(jl)@.awaited == old(jl)@.awaited, final(jl)@.aborted == old(jl)@.aborted
+    { }
+}
 impl JoinHandle {
     #[verifier::external_body] pub fn abort_handle(&self) -> (r: AbortHandle) ensures r.which == self.which { unimplemented!() }
-    #[verifier::external_body] pub fn abort(&self, jl: &mut Ghost<JoinLog>) ensures final(jl)@.aborted == old(jl)@.aborted.insert(self.which), final(jl)@.awaited == old(jl)@.awaited { }
+    #[verifier::external_body] pub fn abort(&self, jl: &mut Ghost<JoinLog>) ensures final(jl)@.aborted == old(jl)@.aborted.insert(self.which), final(jl)@.awaited == old(jl)@.awaited, final(jl)@.released == old(jl)@.released, final(jl)@.awaited_at_release == old(jl)@.awaited_at_release { }
 }
 impl AbortHandle {
-    #[verifier::external_body] pub fn abort(&self, jl: &mut Ghost<JoinLog>) ensures final(jl)@.aborted == old(jl)@.aborted.insert(self.which), final(jl)@.awaited == old(jl)@.awaited { }
+    #[verifier::external_body] pub fn abort(&self, jl: &mut Ghost<JoinLog>) ensures final(jl)@.aborted == old(jl)@.aborted.insert(self.which), final(jl)@.awaited == old(jl)@.awaited, final(jl)@.released == old(jl)@.released, final(jl)@.awaited_at_release == old(jl)@.awaited_at_release { }
 }
 pub struct JoinRes;
 // tokio::join!(a, b): both run to completion
 #[verifier::external_body]
 pub fn vx_join2(a: JoinHandle, b: JoinHandle, jl: &mut Ghost<JoinLog>) -> (r: (JoinRes, JoinRes))
-    ensures final(jl)@.awaited == old(jl)@.awaited.insert(a.which).insert(b.which), final(jl)@.aborted == old(jl)@.aborted
+    ensures final(jl)@.awaited == old(jl)@.awaited.insert(a.which).insert(b.which), final(jl)@.aborted == old(jl)@.aborted,
+        final(jl)@.released == old(jl)@.released, final(jl)@.awaited_at_release == old(jl)@.awaited_at_release
 { unimplemented!() }
 #[verifier::external_body]
 pub fn vx_choice() -> (r: bool) { true }
